@@ -89,7 +89,12 @@ def _apply_renames(
 
     _validate_rename_keys(mapping, values, kind)
     history = [RenameEntry(kind, old, new) for old, new in mapping.items()]
-    return tuple(mapping.get(v, v) for v in values), history
+    renamed = tuple(mapping.get(v, v) for v in values)
+    if len(renamed) != len(set(renamed)):
+        # as with_inputs() / with_outputs(): two parameters cannot answer to one name
+        dupes = sorted({v for v in renamed if renamed.count(v) > 1})
+        raise RenameError(f"Rename produces duplicate {kind}: {dupes}. Each name must be unique.")
+    return renamed, history
 
 
 def build_reverse_rename_map(
